@@ -109,6 +109,20 @@ pub fn run() -> Vec<Outcome> {
             on_map!("HashMap", "remove_entry", "guard", |m, g| m.remove_entry(&key(), &g).map(|v| v.1.payload));
             on_map!("HashMap", "retain", "guard", |m, g| m.retain(|_, _| false, &g));
             on_map!("HashMap", "retain_force", "guard", |m, g| m.retain_force(|_, _| false, &g));
+            // the same single-key calls for a key that is ABSENT (the call still reads the table and a
+            // bin through the guard; a check that only happens once a node was found is no check)
+            on_map!("HashMap", "contains_key", "guard", |m, g| m.contains_key(&nk(), &g));
+            on_map!("HashMap", "get", "guard", |m, g| m.get(&nk(), &g).map(|v| v.payload));
+            on_map!("HashMap", "get_key_value", "guard", |m, g| m.get_key_value(&nk(), &g).map(|v| v.1.payload));
+            on_map!("HashMap", "compute_if_present", "guard", |m, g| m.compute_if_present(&nk(), |_, _| None, &g).map(|v| v.payload));
+            on_map!("HashMap", "remove", "guard", |m, g| m.remove(&nk(), &g).map(|v| v.payload));
+            on_map!("HashMap", "remove_entry", "guard", |m, g| m.remove_entry(&nk(), &g).map(|v| v.1.payload));
+            on_map!("HashMapRef", "contains_key", "self.guard", |m, g| m.with_guard(&g).contains_key(&nk()));
+            on_map!("HashMapRef", "get", "self.guard", |m, g| m.with_guard(&g).get(&nk()).map(|v| v.payload));
+            on_map!("HashMapRef", "get_key_value", "self.guard", |m, g| m.with_guard(&g).get_key_value(&nk()).map(|v| v.1.payload));
+            on_map!("HashMapRef", "compute_if_present", "self.guard", |m, g| m.with_guard(&g).compute_if_present(&nk(), |_, _| None).map(|v| v.payload));
+            on_map!("HashMapRef", "remove", "self.guard", |m, g| m.with_guard(&g).remove(&nk()).map(|v| v.payload));
+            on_map!("HashMapRef", "remove_entry", "self.guard", |m, g| m.with_guard(&g).remove_entry(&nk()).map(|v| v.1.payload));
             // ---- HashMapRef made by with_guard
             on_map!("HashMapRef", "iter", "self.guard", |m, g| m.with_guard(&g).iter().count());
             on_map!("HashMapRef", "keys", "self.guard", |m, g| m.with_guard(&g).keys().count());
@@ -148,6 +162,14 @@ pub fn run() -> Vec<Outcome> {
             on_set!("HashSet", "retain", "guard", |s, _o, g| s.retain(|_| false, &g));
             on_set!("HashSet", "clear", "guard", |s, _o, g| s.clear(&g));
             on_set!("HashSet", "reserve", "guard", |s, _o, g| s.reserve(100, &g));
+            on_set!("HashSet", "contains", "guard", |s, _o, g| s.contains(&nk(), &g));
+            on_set!("HashSet", "get", "guard", |s, _o, g| s.get(&nk(), &g).map(|k| k.id));
+            on_set!("HashSet", "remove", "guard", |s, _o, g| s.remove(&nk(), &g));
+            on_set!("HashSet", "take", "guard", |s, _o, g| s.take(&nk(), &g).map(|k| k.id));
+            on_set!("HashSetRef", "contains", "self.guard", |s, _o, g| s.with_guard(&g).contains(&nk()));
+            on_set!("HashSetRef", "get", "self.guard", |s, _o, g| s.with_guard(&g).get(&nk()).map(|k| k.id));
+            on_set!("HashSetRef", "remove", "self.guard", |s, _o, g| s.with_guard(&g).remove(&nk()));
+            on_set!("HashSetRef", "take", "self.guard", |s, _o, g| s.with_guard(&g).take(&nk()).map(|k| k.id));
             // ---- HashSetRef made by with_guard
             on_set!("HashSetRef", "iter", "self.guard", |s, _o, g| s.with_guard(&g).iter().count());
             on_set!("HashSetRef", "contains", "self.guard", |s, _o, g| s.with_guard(&g).contains(&key()));
